@@ -284,27 +284,33 @@ def case(ctx, i, rng):
         doc_used = {}
     else:
         doc_used = doc
+    # the parser reads the environment by default, but this one call is told not to (env=False): decoys again, at every level
+    env_kw_off = use_env and rng.random() < 0.25
+    kw = {"env": False} if env_kw_off else {}
+    if env_kw_off:
+        use_env = False
+        ctx.count("st.env.default-on-but-call-says-env=False")
     exp = expect(tree, levels, sels, doc_used, env, use_env)
     with environ(env):
         if channel == "argv":
-            o = call(p.parse_args, render_argv(levels, sels, []))
+            o = call(p.parse_args, render_argv(levels, sels, []), **kw)
         elif channel == "argv+cfg":
-            o = call(p.parse_args, render_argv(levels, sels, [f"--cfg={json.dumps(doc)}"] if doc else []))
+            o = call(p.parse_args, render_argv(levels, sels, [f"--cfg={json.dumps(doc)}"] if doc else []), **kw)
         elif channel == "argv+2cfg":
             # the document split over two --cfg: what names / selects first, then the sections (merged left to right)
             first = {k: v for k, v in doc.items() if not isinstance(v, dict)}
             second = {k: v for k, v in doc.items() if isinstance(v, dict)}
             cfgs = ([f"--cfg={json.dumps(first)}"] if first else []) + ([f"--cfg={json.dumps(second)}"] if second else [])
-            o = call(p.parse_args, render_argv(levels, sels, cfgs))
+            o = call(p.parse_args, render_argv(levels, sels, cfgs), **kw)
         elif channel == "argv+cfgfile":
             path = os.path.join(ctx.workdir, f"c17_{tag}.yaml")
             with open(path, "w") as f:
                 yaml.safe_dump(doc, f, sort_keys=False)
-            o = call(p.parse_args, render_argv(levels, sels, ["--cfg", path] if doc else []))
+            o = call(p.parse_args, render_argv(levels, sels, ["--cfg", path] if doc else []), **kw)
         elif channel == "object":
-            o = call(p.parse_object, copy.deepcopy(doc))
+            o = call(p.parse_object, copy.deepcopy(doc), **kw)
         else:
-            o = call(p.parse_string, json.dumps(doc))
+            o = call(p.parse_string, json.dumps(doc), **kw)
     rule = rule_used(tree, sels, doc_used, env if use_env else {})
     ctx.count("st.env." + ("on" if use_env else "off-with-decoys"))
     ctx.evaluation(("c17", maxdepth, channel, rule, short(tree, 400), short(doc_used, 300), tuple(sels)))
@@ -316,7 +322,7 @@ def case(ctx, i, rng):
         ctx.count("st.default_config_sections_for_subcommands")
     ctx.count(f"st.depth.{maxdepth}")
     ctx.count(f"st.channel.{channel}")
-    w = dict(default_env=use_env, channel=channel, tree=short(_tree_summary(tree), 900), argv=render_argv(levels, sels, []), config=doc_used, env=env, rule=rule)
+    w = dict(default_env=use_env, env_false_given_to_the_call=env_kw_off, channel=channel, tree=short(_tree_summary(tree), 900), argv=render_argv(levels, sels, []), config=doc_used, env=env, rule=rule)
     if not (o.accepted or o.rejected):
         ctx.observe("escape (C03)", o.brief())
         return
